@@ -1,0 +1,18 @@
+//go:build verif
+// +build verif
+
+package massdb_v1
+
+// This file exists only under the build tag "verif".
+
+// VerifMemFn, when set, replaces the amount of cache memory a plotting pass is given for its next window
+// (the production code derives it from the machine's available memory).  It lets the conformance harness
+// in /verif dictate the window schedule so that small tables are plotted in several windows.
+var VerifMemFn func(requiredMem uint64) uint64
+
+func verifMem(requiredMem uint64) uint64 {
+	if f := VerifMemFn; f != nil {
+		return f(requiredMem)
+	}
+	return requiredMem
+}
